@@ -125,6 +125,11 @@ theorem fileStep_refines (fs : Fs) (fd : Fd) (op : FileOp) (c : Bytes)
     · simp [hacc, take_drop_all, hget]
   | size =>
     simp [fileStep, fileSize_eq, specStep, hfd, hget, hdir]
+  | read n =>
+    simp only [fileStep, fileRead, sysRead, specStep, hdir, hfd]
+    by_cases hacc : fd.acc = .wronly
+    · simp [hacc, hget, hdir]
+    · simp [hacc, hget]
 
 /-- a whole script on one File object refines the byte-array specification -/
 theorem runOps_refines : ∀ (ops : List FileOp) (fs : Fs) (fd : Fd) (c : Bytes),
